@@ -651,3 +651,9 @@ def _quant_str(ex, st, e, kind):
 
 SPECIAL_FORMS["forall_path"] = lambda ex, st, e: _quant_str(ex, st, e, "forall")
 SPECIAL_FORMS["exists_path"] = lambda ex, st, e: _quant_str(ex, st, e, "exists")
+
+
+@method(Seq, "items")
+def seq_items(ex, st, o, args, kwargs, node):
+    """an ordered mapping that a contract models as the sequence of its (key, value) pairs: .items() is that sequence"""
+    return st.get(o)
